@@ -53,6 +53,7 @@ x_ = z3.Const("x", V)
 def run(chk):
     chk.section("lemma", lambda: lemma_section(chk))
     chk.section("analyze", lambda: analyze_section(chk))
+    chk.section("check_bb", lambda: check_bb_section(chk))
     n = 16
     for i in range(n):
         chk.section(f"bounded-{i}", lambda i=i: bounded_section(chk, i, n))
@@ -170,6 +171,102 @@ def analyze_section(chk):
                             replay=lambda m: {"script": ORACLE + REPLAY_ONE, "input": {"prog": [["iffalse", [["asg", "h", "int"]]], ["use", "h"]]}})
             n += len(paths)
     chk.record("CFG.analyze:all-scenarios-explored", n >= 32, str(n), kind="reachability")
+    chk.use_engine(e)
+
+
+# ------------------------------------------------------------------------------ check_bb
+def check_bb_section(chk):
+    """The contract of check_bb that the lemma assumes, for ONE generic variable name x and one
+    block: every combination of  x in inputs / assigned in the block / used in the block /
+    live before each (dummy) successor / assigned somewhere / maybe assigned / global, for an entry
+    and a non-entry block with 0..2 successors and 0..1 dummy successor.  The real function is
+    executed; StmtChecker is modelled by its effect on ctx.locals (adds the assigned names)."""
+    import itertools
+    e = mk_engine(chk)
+    e.func_info(CHK, "check_bb")
+    m = e.module(CHK)
+    CORE = "guppylang_internals.checker.core"
+    shapes = [(0, 0), (1, 0), (2, 0), (1, 1), (0, 1)]
+    n_obl = 0
+    for is_entry in (True, False):
+        for nsucc, ndummy in shapes:
+            ne = nsucc + ndummy
+            for bits in itertools.product((False, True), repeat=6 + ne):
+                x_in_inputs, x_assigned, x_used, x_AS, x_maybe, x_global = bits[:6]
+                live = bits[6:]
+                if x_in_inputs and not x_AS:
+                    continue        # inputs are assigned somewhere by construction (CFG.analyze, proved above)
+                if x_assigned and not x_AS:
+                    continue
+                if not is_entry and x_used:
+                    continue        # the used-test only exists for the entry block
+
+                def t(it, is_entry=is_entry, nsucc=nsucc, ndummy=ndummy, bits=bits):
+                    x_in_inputs, x_assigned, x_used, x_AS, x_maybe, x_global = bits[:6]
+                    live = bits[6:]
+                    f = it.lookup_global(m, "check_bb")
+                    BBc = ClassVal("BB", builtin=True)
+                    succs = [SObj(BBc, {"idx": 10 + i}) for i in range(nsucc)]
+                    dsuccs = [SObj(BBc, {"idx": 20 + i}) for i in range(ndummy)]
+                    use_bb = SObj(BBc, {"idx": 99, "vars": SObj(ClassVal("VS", builtin=True), {"used": {"x": "USE-NODE"}})})
+                    bb = SObj(BBc, {"idx": 1, "predecessors": [], "successors": list(succs), "dummy_successors": list(dsuccs), "statements": ["STMTS"], "branch_pred": None,
+                                    "reachable": True, "vars": SObj(ClassVal("VS", builtin=True), {"used": {"x": "USE-NODE"} if x_used else {}})})
+                    entry = bb if is_entry else SObj(BBc, {"idx": 0})
+                    cfg = SObj(ClassVal("CFG", builtin=True), {
+                        "entry_bb": entry, "ass_before": {bb: {"x"} if x_in_inputs else set()},
+                        "live_before": {s: ({"x": use_bb} if lv else {}) for s, lv in zip(succs + dsuccs, live)},
+                        "assigned_somewhere": {"x"} if x_AS else set(), "maybe_ass_before": {use_bb: {"x"} if x_maybe else set()}})
+                    bb.fields["containing_cfg"] = cfg
+                    Var = ClassVal("Variable", builtin=True)
+                    inputs = [SObj(Var, {"name": "x"})] if x_in_inputs else []
+                    G = ClassVal("GlobalsStub", builtin=True)
+                    G.attrs["__contains__"] = Builtin("__contains__", lambda self, k: x_global and k == "x")
+                    globals_ = SObj(G, {})
+
+                    def stmt_checker(it2, a, k):
+                        ctx = a[0]
+                        def check_stmts(stmts):
+                            if x_assigned:
+                                it.setitem(ctx.fields["locals"] if isinstance(ctx, SObj) else ctx[1], "x", SObj(Var, {"name": "x", "new": True}))
+                            return ["CHECKED"]
+                        return SObj(ClassVal("StmtCheckerStub", builtin=True), {"check_stmts": Builtin("check_stmts", check_stmts)})
+                    e.models["guppylang_internals.checker.stmt_checker:StmtChecker"] = stmt_checker
+                    e.models[f"{CHK}:diagnose_maybe_undefined"] = lambda it2, a, k: None
+                    e.models[f"{CHK}:VarNotDefinedError"] = lambda it2, a, k: SObj(ClassVal("Diag", builtin=True), {"kind": "VarNotDefinedError", "var": a[1]})
+                    e.models[f"{CHK}:VarMaybeNotDefinedError"] = lambda it2, a, k: SObj(ClassVal("Diag", builtin=True), {"kind": "VarMaybeNotDefinedError", "var": a[1], "add_sub_diagnostic": Builtin("asd", lambda d: None)})
+                    e.models[f"{CHK}:CheckedBB"] = lambda it2, a, k: SObj(ClassVal("CheckedBBStub", builtin=True), {"sig": k.get("sig"), "successors": None, "branch_pred": None})
+                    e.models["guppylang_internals.checker.expr_checker:ExprSynthesizer"] = lambda it2, a, k: SObj(ClassVal("ES", builtin=True), {"synthesize": Builtin("syn", lambda p: (p, "TY"))})
+                    e.models["guppylang_internals.checker.expr_checker:to_bool"] = lambda it2, a, k: (a[0], None)
+                    if nsucc > 1:
+                        bb.fields["branch_pred"] = "PRED"
+                    r = it.call(f, [bb, "CHECKED_CFG", inputs, "RET_TY", {}, globals_], {})
+                    sig = r.fields["sig"]
+                    return [[v.fields["name"] for v in row] for row in sig.fields["output_rows"]], [[v.fields["name"] for v in row] for row in sig.fields["dummy_output_rows"]]
+                paths = e.explore(t)
+
+                def post(p, is_entry=is_entry, nsucc=nsucc, ndummy=ndummy, bits=bits):
+                    x_in_inputs, x_assigned, x_used, x_AS, x_maybe, x_global = bits[:6]
+                    live = bits[6:]
+                    defined_after = x_in_inputs or x_assigned
+                    bad_entry = is_entry and x_used and not x_in_inputs and (x_AS or not x_global)
+                    bad_edge = any(lv and ((x_AS and not defined_after) or (not x_AS and not x_global)) for lv in live)
+                    if bad_entry or bad_edge:
+                        ok = p.kind == "raise" and p.raised(e, "GuppyError") and p.value.fields["error"].fields.get("kind") in ("VarNotDefinedError", "VarMaybeNotDefinedError") \
+                            and p.value.fields["error"].fields.get("var") == "x"
+                        if ok and not bad_entry:
+                            # the more specific message iff x may be assigned before the use
+                            ok = (p.value.fields["error"].fields["kind"] == "VarMaybeNotDefinedError") == (x_AS and x_maybe)
+                        return z3.BoolVal(bool(ok))
+                    if p.kind != "return":
+                        return z3.BoolVal(False)
+                    rows, drows = p.value
+                    want = [["x"] if (lv and defined_after) else [] for lv in live]
+                    return z3.BoolVal(rows == want[:nsucc] and drows == want[nsucc:])
+                nm = f"{'entry' if is_entry else 'inner'},succ={nsucc},dummy={ndummy},inputs={int(bits[0])},assigned={int(bits[1])},used={int(bits[2])},AS={int(bits[3])},maybe={int(bits[4])},global={int(bits[5])},live={''.join(str(int(b)) for b in bits[6:]) or '-'}"
+                chk.prove_paths(f"check_bb[{nm}]:rejects(not-defined)<=>entry-use-or-live-successor-variable-without-definition/\\otherwise-row(succ)==live_before(succ)∩locals",
+                                paths, post, func=f"{CHK}:check_bb", replay=lambda m_: {"script": ORACLE + REPLAY_ONE, "input": {"prog": [["use", "h"], ["asg", "h", "int"]]}})
+                n_obl += 1
+    chk.record("check_bb:all-membership-combinations-explored", n_obl >= 300, str(n_obl), kind="reachability")
     chk.use_engine(e)
 
 
